@@ -832,7 +832,11 @@ func (rn *runner) describe(p *program) []string {
 		if t.sink {
 			kind = "sink"
 		}
-		res = append(res, fmt.Sprintf("thread %d (%s): %s", i, kind, strings.ReplaceAll(strings.TrimSpace(p.progs[t.prog].text), "\n", "; ")))
+		text := strings.ReplaceAll(strings.TrimSpace(p.progs[t.prog].text), "\n", "; ")
+		if t.sink && p.progs[t.prog].inline >= 0 {
+			text += fmt.Sprintf("; <body of u%d inline in the sink>", p.progs[t.prog].inline)
+		}
+		res = append(res, fmt.Sprintf("thread %d (%s): %s", i, kind, text))
 	}
 	return res
 }
